@@ -1,6 +1,6 @@
 (* Properties_C02.v — property C02 (control planners' solutions replay through the propagator to the goal).
    Statements only. *)
-From Coq Require Import List ZArith Bool Arith.
+From Coq Require Import List ZArith Bool Arith Lia.
 From OmplV Require Import ControlModel ControlProofs RrtModel RrtProofs.
 Import ListNotations.
 
@@ -12,6 +12,19 @@ Theorem C02_propagateWhileValid_spec : forall (St C : Type) (stepf : C -> St -> 
   r <= steps /\ res = iter St C stepf c r s /\ (forall k, 1 <= k <= r -> valid (iter St C stepf c k s) = true) /\
   (r < steps -> valid (iter St C stepf c (S r) s) = false).
 Proof. exact pwv_spec. Qed.
+(* ... so the returned step count is THE longest valid prefix: no larger count within `steps` has all its states valid
+   (the result is determined by the validity of the iterates alone) *)
+Theorem C02_propagateWhileValid_is_maximal : forall (St C : Type) (stepf : C -> St -> St) (valid : St -> bool) s c steps r',
+  r' <= steps -> (forall k, 1 <= k <= r' -> valid (iter St C stepf c k s) = true) ->
+  r' <= fst (pwv St C stepf valid s c steps).
+Proof.
+  intros St C stepf valid s c steps r' Hle Hall.
+  pose proof (C02_propagateWhileValid_spec St C stepf valid s c steps) as Sp.
+  destruct (pwv St C stepf valid s c steps) as [r res]. destruct Sp as (_ & _ & _ & Hstop). cbn [fst].
+  destruct (le_lt_dec r' r) as [L|G]; [exact L|exfalso].
+  assert (Hf : valid (iter St C stepf c (S r) s) = false) by (apply Hstop; lia).
+  rewrite (Hall (S r)) in Hf by lia. discriminate.
+Qed.
 (* the vector overload returns those same states, in order *)
 Theorem C02_propagateWhileValid_states_spec : forall (St C : Type) (stepf : C -> St -> St) (valid : St -> bool) c fuel cur,
   let l := pwv_states St C stepf valid c fuel cur in
@@ -79,6 +92,7 @@ Theorem C02_admission_sound : forall r, cadjudicate r = CVok ->
 Proof. exact cadjudicate_sound. Qed.
 
 Print Assumptions C02_propagateWhileValid_spec.
+Print Assumptions C02_propagateWhileValid_is_maximal.
 Print Assumptions C02_propagateWhileValid_states_spec.
 Print Assumptions C02_tree_paths_replay.
 Print Assumptions C02_directed_sampler_result_replays.
